@@ -169,3 +169,25 @@ func (tree *Tree[T]) buildMethods(num int, methods ...string) {
 
 	tree.node.setMethodIndex(index)
 }
+
+// 重新统计所有节点上的请求方法数量
+//
+// Remove 和 Clean 可能删除了整个节点或是并不存在的请求方法，无法通过增减量计算。
+func (tree *Tree[T]) recountMethods() {
+	clear(tree.methods)
+	for _, c := range tree.node.children {
+		c.countMethods(tree.methods)
+	}
+	tree.buildMethods(0)
+}
+
+func (n *node[T]) countMethods(methods map[string]int) {
+	for m := range n.handlers {
+		if m != methodNotAllowed && m != http.MethodOptions && m != http.MethodHead {
+			methods[m]++
+		}
+	}
+	for _, c := range n.children {
+		c.countMethods(methods)
+	}
+}
